@@ -288,7 +288,7 @@ pub fn case_strategy() -> impl Strategy<Value = Case> {
         3 => (operand_strategy(), prop::sample::select(vec!['*', '+', '-']), any::<u32>(), operand_strategy(), prop_oneof![2 => Just(0u8), 1 => 1u8..3]).prop_map(|(a, op, p, b, wcase)| Case { shape: Shape::OpWord(a, op, p, b), wcase }),
         3 => crate::c10::case_strategy().prop_map(|d| Case { shape: Shape::Durations(d), wcase: 0 }),
         // date shapes valid in every language (no month-first form)
-        4 => crate::c09::shape_strategy("tr").prop_map(|shape| Case { shape: Shape::Dates(crate::c09::Case { lang: "tr".into(), shape, tz: None, seps: 0, glue: false }), wcase: 0 }),
+        4 => crate::c09::shape_strategy("tr").prop_map(|shape| Case { shape: Shape::Dates(crate::c09::Case { lang: "tr".into(), shape, tz: None, seps: 0, glue: false, via_var: false }), wcase: 0 }),
         4 => word_free.prop_map(|g| Case { shape: Shape::WordFree(g), wcase: 0 }),
     ]
 }
@@ -307,8 +307,8 @@ pub fn table() -> Vec<Case> {
         for k in 0..4u32 {
             let pick = (((k as u64) << 32) / 4 + 1) as u32;
             for cp in 0..3u8 {
-                out.push(Case { shape: Shape::Dates(crate::c09::Case { lang: "tr".into(), shape: crate::c09::Shape::Literal(crate::c09::DateLit { y: Some(2020), m, d: 12, spell: crate::c09::Spell::DMonY(pick, cp, 0) }), tz: None, seps: 0, glue: false }), wcase: 0 });
-                out.push(Case { shape: Shape::Dates(crate::c09::Case { lang: "tr".into(), shape: crate::c09::Shape::Literal(crate::c09::DateLit { y: None, m, d: 12, spell: crate::c09::Spell::DMon(pick, cp, 0) }), tz: None, seps: 0, glue: false }), wcase: 0 });
+                out.push(Case { shape: Shape::Dates(crate::c09::Case { lang: "tr".into(), shape: crate::c09::Shape::Literal(crate::c09::DateLit { y: Some(2020), m, d: 12, spell: crate::c09::Spell::DMonY(pick, cp, 0) }), tz: None, seps: 0, glue: false, via_var: false }), wcase: 0 });
+                out.push(Case { shape: Shape::Dates(crate::c09::Case { lang: "tr".into(), shape: crate::c09::Shape::Literal(crate::c09::DateLit { y: None, m, d: 12, spell: crate::c09::Spell::DMon(pick, cp, 0) }), tz: None, seps: 0, glue: false, via_var: false }), wcase: 0 });
             }
         }
     }
@@ -320,8 +320,8 @@ pub fn table() -> Vec<Case> {
         }
     }
     for w in 0..3u8 {
-        out.push(Case { shape: Shape::Dates(crate::c09::Case { lang: "tr".into(), shape: crate::c09::Shape::Const(w, None), tz: None, seps: 0, glue: false }), wcase: 0 });
-        out.push(Case { shape: Shape::Dates(crate::c09::Case { lang: "tr".into(), shape: crate::c09::Shape::Const(w, Some((true, 3))), tz: None, seps: 0, glue: false }), wcase: 0 });
+        out.push(Case { shape: Shape::Dates(crate::c09::Case { lang: "tr".into(), shape: crate::c09::Shape::Const(w, None), tz: None, seps: 0, glue: false, via_var: false }), wcase: 0 });
+        out.push(Case { shape: Shape::Dates(crate::c09::Case { lang: "tr".into(), shape: crate::c09::Shape::Const(w, Some((true, 3))), tz: None, seps: 0, glue: false, via_var: false }), wcase: 0 });
     }
     out
 }
